@@ -66,7 +66,10 @@ def verify_tree():
         # rustc/VIR errors located in one function (typically ghost text that no longer matches an edited body):
         # leave that function unverified (UNDECIDED for its properties only) and examine everything else
         known = {c.name for c in b['contracts']}
-        comp = {t['fn'] for t in tool if t.get('compile') and t['fn'] in known} - forced
+        # ... as are constructs the verifier does not support (a std function without specification, ...): the function
+        # that contains them is left unverified so that the rest of the crate is still examined
+        unsupported_re = r'not supported|unsupported|does not yet support|not yet supported'
+        comp = {t['fn'] for t in tool if (t.get('compile') or re.search(unsupported_re, t['msg'])) and t['fn'] in known} - forced
         if any(t.get('compile') and t['fn'] not in known for t in tool):
             # a compile error outside every function under contract: if it sits in a ghost-addition item (a lemma or a
             # ghost impl that mentions something the edited tree no longer has), drop that item and try again - the
@@ -84,7 +87,7 @@ def verify_tree():
             if not hard:
                 break
         for t in tool:
-            if t.get('compile') and t['fn'] in comp and t not in tool_hist:
+            if (t.get('compile') or re.search(unsupported_re, t['msg'])) and t['fn'] in comp and t not in tool_hist:
                 tool_hist.append(t)
         if not hard and not comp:
             break
@@ -296,6 +299,11 @@ def main():
         shape_dist[fn] = d_
         if d_ >= 8 or (d_ >= 4 and d_ * 10 >= 3 * max(1, len(old_t))) or any(t_[:-2] in gone_fns for t_ in old_t if t_.endswith('()')):
             restructured.add(fn)
+    # a function of the current tree that did not exist when the contracts were written has no contract: its callers
+    # know nothing about its result, so their obligations cannot be discharged whatever it computes
+    new_fns = {fn.split('::')[-1] for fn in b.get('bodies', {}) if fn not in base_bodies}
+    def calls_new_helper(fn):
+        return bool(set(b.get('calls', {}).get(fn, [])) & new_fns)
     new_shape = []
     structural = []   # failures that leave P undecided by proof (bounded stand-in decides), never violations by themselves
     SEMANTIC = ('requires', 'ensures', 'const_ensures', 'closure_ensures', 'loop_ensures')
@@ -331,9 +339,10 @@ def main():
             # failure leaves those properties UNDECIDED by proof (the bounded stand-in then decides)
             struct = set(f['tags'])
         elif f['kind'] == 'safety':
-            if f['fn'] in edited and f.get('pragma') is None:
-                # a Verus-generated safety obligation inside a function whose body differs from the baseline: this
-                # obligation did not exist (in this form) on the unchanged tree, so its failure alone decides nothing
+            if f['fn'] in edited and f.get('pragma') is None and (f['fn'] in restructured or calls_new_helper(f['fn'])):
+                # a Verus-generated safety obligation inside a RESTRUCTURED function: this obligation did not exist (in
+                # this form) on the unchanged tree, so its failure alone decides nothing.  After a small edit, a new
+                # possible overflow / out-of-range index is taken at face value (C10)
                 new_shape.append(f)
                 struct = set(dflt) | {'C10'}
             else:
@@ -380,11 +389,6 @@ def main():
     # undecided by proof (bounded stand-in decides) instead of raising an unconfirmed alarm.  Every other failed
     # semantic obligation - in particular after a small edit - stays a violation (no-failing-input-found when the
     # corpus has no witness).
-    # a function of the current tree that did not exist when the contracts were written has no contract: its callers
-    # know nothing about its result, so their obligations cannot be discharged whatever it computes
-    new_fns = {fn.split('::')[-1] for fn in b.get('bodies', {}) if fn not in base_bodies}
-    def calls_new_helper(fn):
-        return bool(set(b.get('calls', {}).get(fn, [])) & new_fns)
     if confirmed is not None and pid not in confirmed and mine:
         keep = []
         for f in mine:
